@@ -370,6 +370,12 @@ def collect(ctx, n, _unused=0):
     cases.insert(0, {"input_src": "from typing import Optional\n\nclass In(object):\n    a: int = 5\n",
                      "output_src": "def f(x, a='why', z=0.0):\n    return 2\n", "input_param": "In.a", "output_param": "f.a",
                      "in_kind": "attr", "out_kind": "param", "wrap": False, "eval": False})
+    # corpus: a class attribute with a value synced onto the same-named parameter of a static method that FOLLOWS an ordinary method
+    # (every parameter has a default, so the slot of `defaults` that is written is the parameter's own)
+    cases.insert(1, {"input_src": "class Cfg(object):\n    size: int = 10\n",
+                     "output_src": "class K(object):\n    def run(self, steps: int = 1, verbose: bool = False):\n        return 1\n\n"
+                                   "    @staticmethod\n    def create(name: str = 'k', size: float = 3.0, depth: int = 2):\n        return 1\n",
+                     "input_param": "Cfg.size", "output_param": "K.create.size", "in_kind": "attr", "out_kind": "param", "wrap": False, "eval": False})
     agg = {"n": 0, "ran": 0, "raised": 0, "modelled": 0}
     items, corr = [], []
     # the lookup itself (find_in_ast after annotate_ancestry) against Model/FindAst.v: every path of some of the generated modules,
